@@ -274,7 +274,7 @@ fn judge(c: &C20Case, g: &Grouped, target: &std::path::PathBuf) -> Verdict {
 pub fn check(tier: Tier) -> i32 {
     let ctx = Ctx::new("C20", tier);
     replay_corpus::<C20Case, _>(&ctx, run_case);
-    drive(&ctx, "main", tier.pick(3000, 30000), case_strategy, run_case);
+    drive(&ctx, "main", tier.pick(6000, 40000), case_strategy, run_case);
     cleanup_process_scratch();
     ctx.finish(
         "exploration",
